@@ -573,6 +573,8 @@ def _into(it, args, dty, func):
 def _clone(it, args, dty, func):
     v = args[0]
     t = v.load() if isinstance(v, Ref) else v
+    if isinstance(t, Agg) and t.ty in ("{chan.tx}", "{chan.rx}"):
+        return _chan_clone(it, args, dty, func)          # a new handle of the same channel (handle counting)
     if isinstance(t, (Agg, Enum)) and "::" in t.ty and not t.ty.startswith(("std::", "core::", "alloc::", "{")):
         fn = it.prog.resolve_method("", t.ty, "clone", "Clone")
         if fn and "impl at" in fn:
@@ -582,7 +584,32 @@ def _clone(it, args, dty, func):
                 return it.run_body(it.prog.body(fn), [v])
     if isinstance(t, (Ref, SliceRef)):
         return t
-    return clone_val(t)
+    c = clone_val(t)
+    _count_new_handles(c)
+    return c
+
+
+def _count_new_handles(v, depth=0):
+    """a (derived) Clone of a value that contains channel handles creates new handles of those channels"""
+    if depth > 6:
+        return
+    if isinstance(v, Agg) and v.ty in ("{chan.tx}", "{chan.rx}"):
+        ch = v.f[0]
+        if hasattr(ch, "senders"):
+            if len(v.f) > 1:
+                v.f[1] = False
+            if v.ty == "{chan.tx}":
+                ch.senders += 1
+            else:
+                ch.receivers += 1
+        return
+    if isinstance(v, (Agg, Enum)):
+        fs = v.f.values() if isinstance(v.f, SparseF) else v.f
+        for x in fs:
+            _count_new_handles(x, depth + 1)
+    elif isinstance(v, Seq) and v.elem_ty != "u8":
+        for x in v.f:
+            _count_new_handles(x, depth + 1)
 
 
 def _tagpos(tag):
@@ -2485,10 +2512,11 @@ MODEL_DROPS = {"{amutex.guard}": _amutex_guard_drop}
 
 # --- fibre channels, sequential semantics (bounded FIFOs); interleavings are cfa-bmc's job ------------
 class _ChanM:
-    __slots__ = ("items", "cap", "closed")
+    __slots__ = ("items", "cap", "closed", "senders", "receivers")
 
     def __init__(self, cap):
         self.items, self.cap, self.closed = [], cap, False
+        self.senders, self.receivers = 1, 1           # live handles: fibre closes a channel when the LAST handle of a side closes
 
 
 @model("fibre::spsc::bounded_async", "fibre::mpmc_v2::bounded_async", "fibre::mpmc::bounded_async")
@@ -2580,13 +2608,36 @@ def _chan_is_full(it, args, dty, func):
 
 @model("fibre::mpmc_v2::AsyncSender::close", "fibre::mpmc_v2::AsyncReceiver::close", "fibre::mpsc::BoundedAsyncSender::close")
 def _chan_close(it, args, dty, func):
-    _chan(args[0]).closed = True
+    """fibre: close() retires THIS handle (idempotent per handle); the channel is closed - parked peers woken with an
+    error - only when the last handle of that side has been closed or dropped. Dropping a handle is not tracked here,
+    so a modelled channel can stay open longer than the real one, never shorter."""
+    hd = _deref(args[0])
+    ch = hd.f[0]
+    if len(hd.f) > 1 and hd.f[1]:
+        return err(Agg("fibre::CloseError", []))
+    hd.f.append(True) if len(hd.f) == 1 else hd.f.__setitem__(1, True)
+    if hd.ty == "{chan.tx}":
+        ch.senders -= 1
+        if ch.senders <= 0:
+            ch.closed = True
+    else:
+        ch.receivers -= 1
+        if ch.receivers <= 0:
+            ch.closed = True
     return ok(UNIT)
 
 
 @trait_model(r"^fibre::", "Clone", "clone")
 def _chan_clone(it, args, dty, func):
-    return _deref(args[0])
+    hd = _deref(args[0])
+    if isinstance(hd, Agg) and hd.ty in ("{chan.tx}", "{chan.rx}"):
+        ch = hd.f[0]
+        if hd.ty == "{chan.tx}":
+            ch.senders += 1
+        else:
+            ch.receivers += 1
+        return Agg(hd.ty, [ch])
+    return hd
 
 
 @model("std::sync::Arc::downgrade")
